@@ -12,6 +12,11 @@ package main
 // Every case carries exactly ONE special feature class (c13Case.Class) so that
 // a failure is attributable; the finding key is that class (plus the oracle
 // clause when the failing clause is not the one the class is about).
+//
+// Cases the oracle accepts and that consist of plain entries only are then
+// taken through a HISTORY (c13_history.go): the one scanned manifest serves
+// k >= 2 real transfers and must stay the manifest that was scanned and
+// announced; keys "history:<form>/<clause>".
 
 import (
 	"encoding/json"
@@ -1104,7 +1109,11 @@ func runC13(e *Env) {
 		"(plain nested / empty dirs / single files / unicode / hard links / ordinal-looking names / several paths / duplicate base names / same path twice / " +
 		"path and its subdirectory / trailing slashes / dot segments / '.' and relative paths / FIFO / socket / char device / symlinks to file, directory, nothing, a loop, " +
 		"in the tree or as the given path / a path literally named like an ordinal prefix); real ScanPaths+buildPathResolver (or Scan + root join) vs an independent " +
-		"ReadDir+Lstat walk; a case counts when scan, resolver lookups of every item and the walk completed on a non-rejected path list; distinct by (class, mode, tree, path list)"
+		"ReadDir+Lstat walk; a case counts when scan, resolver lookups of every item and the walk completed on a non-rejected path list; distinct by (class, mode, tree, path list). " +
+		"History stage: a hash-selected subset of the clean plain-entry cases is scanned once as the host does and that one manifest value is used for 2..3 real " +
+		"SendManifestMultiStream/RecvManifestMultiStream transfers (next receiver / resume reconnect into the same directory / concurrent receivers; mock or loopback QUIC); " +
+		"after every use: held manifest deep-equal to a pristine copy and to the announced id, manifest read by the receiver equal to it, output tree equal to the source; " +
+		"a history counts when all its uses returned nil on both endpoints; distinct by (form, transport, k, class, mode, case)"
 
 	var mu sync.Mutex
 	agg := map[string]*c13Agg{}
@@ -1112,6 +1121,10 @@ func runC13(e *Env) {
 	failKeys := map[string]int{}
 	sampled := map[string]any{}
 	origWD, _ := os.Getwd()
+	hs, hserr := c13NewHistState()
+	if hserr != nil {
+		e.R.Inconcl("history stage: no loopback QUIC listeners: " + hserr.Error())
+	}
 
 	runOne := func(c c13Case, chdir bool) {
 		base := filepath.Join(work, c.ID)
@@ -1177,6 +1190,11 @@ func runC13(e *Env) {
 		e.R.CountN("resolver_lookups", o.Lookups)
 		e.R.CountN("items_listed", o.Items)
 		if len(o.Fails) == 0 {
+			// the history dimension (c13_history.go): the same scanned manifest
+			// used for k >= 2 real transfers
+			if h, ok := c13HistPlan(e, c); ok {
+				c13RunHistory(e, hs, c, base, h)
+			}
 			return
 		}
 		// key = input class; clauses the class is not about get their own key
@@ -1275,4 +1293,5 @@ func runC13(e *Env) {
 	e.R.Require(tot.Files >= e.Pick(5000, 150000), fmt.Sprintf("only %d files walked", tot.Files))
 	e.R.Require(tot.ScanMode >= e.Pick(100, 3000), fmt.Sprintf("only %d cases through manifest.Scan", tot.ScanMode))
 	e.R.Require(special["fifo"] > 0 && special["symlink-file"] > 0, "no FIFO / symlink entry was ever listed: special-entry clause not exercised")
+	c13HistFinish(e, hs)
 }
